@@ -88,6 +88,17 @@ def main():
             except Exception as e:
                 C.log("setup_extra for %s failed: %r" % (s["id"], e))
                 ok = False
+    # the cross-cutting composition group (obligations of C02/C03 in the thorough tier, `./check e2e`)
+    try:
+        from props import e2e
+        C.translate_deps(e2e.GROUP)
+        r = e2e.build()
+        C.log("coq/e2e: %s (%.0fs)" % ("ok" if r["ok"] else "FAILED", r.get("wall", 0)))
+        if not r["ok"]:
+            ok = False
+            C.log(r["log"][-3000:])
+    except ImportError:
+        pass
     for name, h in hooks:
         try:
             r = h()
